@@ -162,7 +162,7 @@ def rule_c(ck, F):
         inner = mk_add([mk_mul([src] + scale[arm]), mk_mul([('f', 'signum', src), ('c', 0.5)])])
         want = ('f', 'clamp', mk_add([('el', t[1], idx), ('f', 'clamp', ('f', 'trunc', inner), ('c', -256), ('c', 255))]), ('c', 0), ('c', 255))
         if v == want:
-            ck.ok('C', '%s arm: output[p] = clamp(clamp(trunc(%s), -256, 255) + output[p], 0, 255), p = (8by+y)*spl + 8bx+x' % (arm, show(inner)), where_of(b, bb))
+            ck.ok('C', '%s arm: output[p] = clamp(clamp(trunc(%s) as i16, -256, 255) + output[p] as i16, 0, 255) as u8, p = (8by+y)*spl + 8bx+x' % (arm, show(inner)), where_of(b, bb))
         else:
             ck.violation('C', 'C : idct_channel : %s : rounding form' % arm, where_of(b, bb), '%s arm stores %s; expected %s' % (arm, show(v), show(want)))
     for arm in ('Dc', 'Horiz', 'Vert', 'Full'):
